@@ -128,6 +128,10 @@ def run(ck):
         cases.append({'key': f'other:{t}', 'kind': 'other', 't': t, 'p': rnd.choice(corp), 'sizes': [2, 3, 5], 'rs': rnd.randrange(1 << 30)})
         for s in rnd.sample(SMARTS, 5 if ck.quick else 12):
             cases.append({'key': f'smarts:{s}:{t}', 'kind': 'smarts', 't': t, 'p': s, 'rs': rnd.randrange(1 << 30), 'thiele': k % 2 == 0})
+    # element lists with two-letter symbols whose letters spell other elements, against targets that contain those
+    for s in ['[Cl,Br]-C', '[Si,P]', '[N,O]-C', 'C-[F,Cl,Br,I]', '[Sn,Na]~[A]', '[Co,Ni]', '[Cl,Br].[Na,K]']:
+        for t in ['CCCl', 'BrCCB(C)C', 'CSC', 'C[Si](C)(C)I', 'NCCO', 'CC(F)CI', 'C=O.[Co]', 'N[Na]', '[Na+].[Cl-].NC']:
+            cases.append({'key': f'smarts:{s}:{t}', 'kind': 'smarts', 't': t, 'p': s, 'rs': rnd.randrange(1 << 30), 'thiele': False})
     cases = ck.select('searches', cases)
     if cases:
         res = vlib.pmap('checks.c07', 'observe', cases)
